@@ -1001,7 +1001,12 @@ class KmipEngine(object):
             if attribute_name == "Name":
                 attribute_list = managed_object.names
                 if attribute_value is not None:
-                    attribute_value = attribute_value.value
+                    # A Name structure keeps its text in name_value.
+                    attribute_value = getattr(
+                        attribute_value,
+                        'name_value',
+                        attribute_value
+                    ).value
             elif attribute_name == "Application Specific Information":
                 attribute_list = managed_object.app_specific_info
                 if attribute_value is not None:
